@@ -182,6 +182,25 @@ func (d *Dumper) dump(sb *strings.Builder, v reflect.Value, seen map[unsafe.Poin
 		}
 		n := v.Len()
 		ek := t.Elem().Kind()
+		if ek == reflect.Int64 && v.Kind() == reflect.Slice && t.Elem() == reflect.TypeOf(int64(0)) {
+			// fast path (HDR histogram counters): no reflection per element
+			xs := v.Interface().([]int64)
+			sb.WriteString("[")
+			for i := 0; i < len(xs); {
+				j := i
+				for j < len(xs) && xs[j] == xs[i] {
+					j++
+				}
+				if j-i > 1 {
+					fmt.Fprintf(sb, "%dx%d ", xs[i], j-i)
+				} else {
+					fmt.Fprintf(sb, "%d ", xs[i])
+				}
+				i = j
+			}
+			sb.WriteString("]")
+			return
+		}
 		if ek >= reflect.Int && ek <= reflect.Uint64 || ek == reflect.Float64 {
 			// run-length encoded (HDR histograms carry thousands of zero counters)
 			sb.WriteString("[")
